@@ -21,6 +21,8 @@ pub(crate) fn gen(r: &mut Rng) -> Case {
     let from: Vec<String> = silent.map(|v| vec![format!("{v} > *")]).unwrap_or_default();
     let mut pool: Vec<String> = (0..r.range(1, 5)).map(|_| if r.chance(1, 10) { ["a", "s", "k", "sa"][r.below(4)].to_string() } else { rand_word(r, &wc) }).collect();
     if let Some(v) = silent { pool.push(v.to_string()); pool.push(format!("t{v}")); }
+    // the same word typed with an americanist letter and with its IPA value: equal as structures, printed differently
+    if r.chance(1, 8) { let (a, b) = *r.pick(&[("¢a", "t͡sa"), ("ƛi", "t͡ɬi"), ("aλ", "ad͡ɮ"), ("łu", "ɬu"), ("ñe", "ɲe")]); pool.push(a.to_string()); pool.push(b.to_string()); pool.push(format!("{b} {a}")); pool.push(format!("{a} {b}")); }
     let mut lines: Vec<String> = Vec::new();
     for _ in 0..r.range(1, 8) {
         let mut l = r.pick(&pool).clone();
